@@ -6,8 +6,8 @@ from common import Pair, proof_stage, rebuild_tools, build_pqh, build_zoo, Lock,
 MODULE = "PQ.Props.C16"
 # the same statement for the files of the INDEPENDENT writer (any page split, codec, optional metadata, empty row groups)
 EXTRA_MODULES = ["PQ.Lemmas.ForeignIntrospect"]
-EXTRA_THEOREMS = ["PQ.introspection_specWrite", "PQ.introspection_specWrite_ne", "PQ.pageHeadersAt_specWrite", "PQ.pageHeadersAt_spCover", "PQ.pageHeadersAt_spAll", "PQ.pageHeadersAt_spZero"]
-THEOREMS = ["PQ.C16." + t for t in ("at_zero_one_header", "meta_is_footer", "readMetaData_runWriter", "readMetaData_eq_parseFile", "pageHeadersAt_chunk", "pageHeadersAt_chunk_cover", "pageHeadersAt_chunk_zero", "pageHeadersAt_runWriter", "pageHeaders_runWriter", "fileHdrs_facts", "introspection_runWriter")]
+EXTRA_THEOREMS = ["PQ.introspection_specWrite", "PQ.introspection_specWrite_ne", "PQ.pageHeadersAt_specWrite", "PQ.pageHeadersAt_spCover", "PQ.pageHeadersAt_spAll", "PQ.pageHeadersAt_spZero", "PQ.spEmit_append", "PQ.pageHeadersAt_spPageCover"]
+THEOREMS = ["PQ.C16." + t for t in ("at_zero_one_header", "meta_is_footer", "readMetaData_runWriter", "readMetaData_eq_parseFile", "pageHeadersAt_chunk", "pageHeadersAt_chunk_cover", "pageHeadersAt_chunk_zero", "chunkBytes_append", "pageHeadersAt_page_cover", "pageHeadersAt_page_zero", "pageHeadersAt_runWriter", "pageHeaders_runWriter", "fileHdrs_facts", "introspection_runWriter")]
 
 
 def run(chk):
